@@ -197,12 +197,18 @@ func illegalize(t *rapid.T, r spec.Req) spec.Req {
 		r.Payload, r.ByteCount = harness.Bytes(uint64(r.Qty), n), uint8(n)
 	case 16:
 		r.Qty = rapid.SampledFrom([]uint16{0, 124, 125, 126, 127, 128, 256, 65535}).Draw(t, "bad_qty")
+		if rapid.Bool().Draw(t, "bad_qty_any") {
+			r.Qty = uint16(rapid.IntRange(124, 65535).Draw(t, "bad_qty_r")) // any illegal quantity, byte count = low byte of 2*quantity
+		}
 		r.Payload, r.ByteCount = setRegs(int(r.Qty))
 	case 23:
 		if rapid.Bool().Draw(t, "bad_read") {
 			r.Qty = rapid.SampledFrom([]uint16{0, 126, 127, 128, 256, 65535}).Draw(t, "bad_qty")
 		} else {
 			r.WQty = rapid.SampledFrom([]uint16{0, 122, 123, 124, 125, 127, 128, 65535}).Draw(t, "bad_wqty")
+			if rapid.Bool().Draw(t, "bad_wqty_any") {
+				r.WQty = uint16(rapid.IntRange(122, 65535).Draw(t, "bad_wqty_r"))
+			}
 			r.Payload, r.ByteCount = setRegs(int(r.WQty))
 		}
 	}
